@@ -12,7 +12,7 @@ import (
 
 // Event is one step fed to the node under test.
 type Event struct {
-	Kind string // start | adv | part | stop | restart | syncmode | transition | hold | release
+	Kind string // start | adv | fadv (D ms) | part | stop | restart | syncmode | transition | hold | release
 	D    int64  // adv: seconds
 
 	// part
@@ -246,7 +246,10 @@ func (r *runner) Do(ev Event) Obs {
 				}
 			}
 		}
-		w.Clock.Advance(time.Duration(ev.D) * time.Second)
+		// (a clock left between two seconds by a fractional advance is brought back onto a whole second)
+		w.Clock.Advance(time.Duration(ev.D)*time.Second - time.Duration(w.Clock.Now().Nanosecond()))
+	case "fadv": // a fraction of a second passes: no tick, no sleeper due (the generator sees to that)
+		w.Clock.Advance(time.Duration(ev.D) * time.Millisecond)
 	case "hold": // the process stalls as far as its ticker goes: ticks are generated but not consumed
 		w.CClock.setHold(true)
 		r.holding = true
